@@ -2,6 +2,7 @@ import OrbitModel.Proofs.DecodeSafe
 import OrbitModel.Proofs.Uvarint
 import OrbitModel.Proofs.GenEqFrame
 import OrbitModel.Proofs.GenEqListener
+import OrbitModel.Proofs.GenEqDocs
 /-!
 # C12 — malformed network messages never crash a peer or change its state
 
@@ -48,6 +49,27 @@ the proof above no longer checks) -/
 theorem a_loop_that_left_on_error_would_drop_later_messages (acl : Acl) (m : Decoded) (ms : List Decoded)
     (h : handleMessage acl m = .err) : runListener true acl (m :: ms) = [.err] :=
   runListener_stopping_drops_later acl m ms h
+
+/-- no PUTALL batch makes the document index panic, whatever `null` members it holds: they are left
+out, and the batch is indexed as the batch of its real members (`GetDocs` after the `fix:` commit,
+finding F25) -/
+theorem null_batch_members_never_panic (acc : List String × KV) (docs : List (Option (String × String))) :
+    docAllRaw true acc docs = .ok ((docs.filterMap id).foldl docAllStep acc) := by
+  induction docs generalizing acc with
+  | nil => rfl
+  | cons d rest ih =>
+    cases d with
+    | none => simpa [docAllRaw] using ih acc
+    | some x => simpa [docAllRaw] using ih (docAllStep acc x)
+
+/-- the accessor of the Go text of this run does leave nil members out -/
+theorem batch_accessor_tied_to_go_text : Gen.getDocsSkipsNil = true := gen_getDocs_skips_nil
+
+/-- Refutation witness for the tree before that repair: a validly signed entry whose batch is
+`[null]` (any writer can publish one; on a wildcard database anybody) crashed every replica that
+merged it, in the store's main loop (replayed on the real store: corpus/C12/f25). -/
+theorem null_batch_member_crashed_the_index_before_the_fix :
+    docAllRaw false ([], []) [none] = .panic := rfl
 
 /-- no 64-bit length prefix makes the stream reader panic; what it accepts is within the limit -/
 theorem no_length_prefix_panics (len64 : BitVec 64) :
